@@ -129,7 +129,7 @@ fn pages_of(gpa: u64, len: u64) -> BTreeSet<u64> {
     s
 }
 
-fn run(sim: &Sim, cfg: &RunCfg) -> RunOut {
+pub fn run(sim: &Sim, cfg: &RunCfg) -> RunOut {
     sim.choose_policy();
     sim.st().hot = vec!["bitmap.fetch_or", "bitmap.read", "bitmap.write"];
     let mode = cfg.index % 3;
